@@ -44,9 +44,9 @@ func (f Fault) String() string {
 // Event is one record of the store's log.
 type Event struct {
 	Seq  int64  `json:"seq"`
-	Kind string `json:"kind"` // add | add-fail | get-call | get-ret | pin
+	Kind string `json:"kind"` // add | add-fail | get-call | get-ret | pin | remove
 	Cid  string `json:"cid"`
-	Res  string `json:"res,omitempty"`
+	Res  string `json:"res,omitempty"` // get-call: "ctx-done" when the request's context had already ended
 }
 
 // Policy for releasing gated Gets.
@@ -371,7 +371,11 @@ func (d *dagSvc) Get(ctx context.Context, c cid.Cid) (format.Node, error) {
 	defer atomic.AddInt64(&s.inflight, -1)
 
 	s.mu.Lock()
-	s.ev("get-call", c, "")
+	if ctx.Err() != nil {
+		s.ev("get-call", c, "ctx-done")
+	} else {
+		s.ev("get-call", c, "")
+	}
 	f := s.faults[c.KeyString()]
 	var pk *parked
 	if s.gated {
